@@ -18,17 +18,17 @@ CLAIMS = {
          "Does not decide non-negativity in general, pots-sum-to-contributions, zero-sum or loss bounds (arithmetic over loops).", "affine-relation dataflow over SSA + call-graph write sets"),
  "C02": ("other", "4/C02", "Structural necessary conditions of a fair showdown: folded players are scored 0 and live players with their published strength, a player is ranked in a level only under a membership test, every pot/level/player is forwarded and visited (full ranges, both winner and loser routines), winners are the top group of a descending sort. Also: winner shares are Total/len(winners) plus one chip for exactly remainder-many winners (grid over up to 5 winners); a level's contributor list never shares a backing array with another level; layer shape (layer-arith); hands are re-evaluated on every dealing path before they are compared (shared with C10). Equal scores join one group: the group is found by a scan of all existing groups (rank-grouping).",
          "Split arithmetic, remainders, ties and uncalled excess are values and not decided.", "provenance + decision-table extraction over SSA paths"),
- "C03": ("other", "4/C03", "Well-formedness of the constant tables the hand score is built from: ranking tables are permutations in the poker order of the property, each category span exceeds the largest in-category score computed from the code's radix/calibration constants, symbol table total/injective, multiples ladder order. Also: every pattern detector scans its whole input; the slice sorted by descending rank is, unchanged, what the detectors, the grouping and the result see. Inside a category the score is positional over all five cards; only the straight categories have a special case (score-cases).",
+ "C03": ("other", "4/C03", "Well-formedness of the constant tables the hand score is built from: ranking tables are permutations in the poker order of the property, each category span exceeds the largest in-category score computed from the code's radix/calibration constants, symbol table total/injective, multiples ladder order. Also: every pattern detector scans its whole input; the slice sorted by descending rank is, unchanged, what the detectors, the grouping and the result see. Inside a category the score is positional over all five cards; only the straight categories have a special case (score-cases). No function of the evaluator compares addresses of table elements (a ranking table is recognised by value).",
          "Category detection and kicker weighting over 2.6M hands are values and not decided.", "typed-AST constant-table evaluation + SSA constant extraction"),
- "C04": ("other", "4/C04", "Refusal without effect for every path of every action and table operation (guard dominance, sentinel-error returns effect-free), agreement of offered action names with guards across packages, offers attached to the current seat only, wrappers dispatch to the current player, NextPlayer is the clockwise successor. Also: where a betting round opens (current seat parked on the dealer on later streets, walked along the seat successor from the dealer to the big blind before the flop, first offer to the successor of the parked seat); along every chain of events that rests outside the action wait, all offers were cleared after the last grant.",
+ "C04": ("other", "4/C04", "Refusal without effect for every path of every action and table operation (guard dominance, sentinel-error returns effect-free), agreement of offered action names with guards across packages, offers attached to the current seat only, wrappers dispatch to the current player, NextPlayer is the clockwise successor. Also: where a betting round opens (current seat parked on the dealer on later streets, walked along the seat successor from the dealer to the big blind before the flop, first offer to the successor of the parked seat); along every chain of events that rests outside the action wait, all offers were cleared after the last grant. The action guard itself is a membership test of the offers stored for the seat; grants are found by role (any function storing a non-empty offer list).",
          "The seat walk over histories is index arithmetic on runtime state and not decided; of the first-to-act clause the shape of the opening walk is decided, not the resulting seat as a value.", "guard/refusal dominance over path summaries + protocol-constant agreement"),
  "C05": ("other", "4/C05", "Typestate rules of round closing: every offered action marks the actor acted before re-entering the chain, every in-round wager increase resets the other seats' acted flags, the raiser stays acted, walkover and nobody-can-move short-cuts dominate the street entries, the two counters count exactly the stated predicates.",
          "Closing within one lap and never early for all interleavings is a history property and not decided.", "must-pass-through / dominance rules over path summaries"),
  "C06": ("other", "4/C06", "The lifecycle machine extracted from the code: event tables total and mutually inverse, every handler emits or is a wait point with a guarded resuming operation, emits are tail calls, streets chain preflop-flop-turn-river, Start validation dominates the first emit, result stored before close. Also (shared with C04): no seat keeps offers while the hand rests outside the action wait, the terminal event included. Start's dealer test is effective: nothing stores a possibly-nil typed pointer into the interface field it tests.",
          "Bounded number of steps inside a betting round and absence of panics in handlers are not decided.", "event-graph extraction (emit summaries) + constant tables"),
- "C07": ("other", "4/C07", "Structural conditions under which a game rebuilt from JSON is indistinguishable: operations write only *GameState (no hidden wrapper/global state), the state type closure is fully serialised except a derived set that is recomputed before every read, Resume re-enters the recorded event, backend methods clone in and out, no clock/random source reachable from operations except the timestamp.",
+ "C07": ("other", "4/C07", "Structural conditions under which a game rebuilt from JSON is indistinguishable: operations write only *GameState (no hidden wrapper/global state), the state type closure is fully serialised except a derived set that is recomputed before every read, Resume re-enters the recorded event, backend methods clone in and out, no clock/random source reachable from operations except the timestamp. Nothing reachable from an operation starts a goroutine; no foreign function is handed a wrapper field; the loader rebuilds the wiring on every normal path.",
          "Equality of all continuations and map-iteration order-insensitivity are not decided.", "write-set / type-closure / provenance analysis"),
- "C08": ("other", "4/C08", "All implementations of the seat-can-play predicate agree with occupied AND active AND not reserved; dealer/sb/bb are stored only from playable searches that start strictly after the previous position; position strings agree between table and engine. Also: Seat.IsActive is written only by the hand-boundary functions; the dealer-move rules of C17 (search after the dealer, passed seats re-activated up to the seat just found) are reported here too. The big blind is stored before the closing walk that stops at it; the unconditional re-opening pass starts after the big blind.",
+ "C08": ("other", "4/C08", "All implementations of the seat-can-play predicate agree with occupied AND active AND not reserved; dealer/sb/bb are stored only from playable searches that start strictly after the previous position; position strings agree between table and engine. Also: Seat.IsActive is written only by the hand-boundary functions; the dealer-move rules of C17 (search after the dealer, passed seats re-activated up to the seat just found) are reported here too. The big blind is stored before the closing walk that stops at it; the unconditional re-opening pass starts after the big blind. Every path of Next that does not refuse assigns the blinds.",
          "Which seat is first clockwise and the dealt-in timing after a mid-hand join are history-dependent and not decided.", "sibling decision-table agreement + provenance"),
  "C09": ("other", "4/C09", "Refusals of SyncState (unknown table) and AddPlayers (after deadline) are effect-free; counters move in lock-step with every hand-out, elimination, release and break (affine relations with len() symbols); the waiting queue is written only by append, pop-front and the undispatched remainder. A table requirement is assigned or reduced, never added to; the remainder of the queue is stored back before tables are opened.",
          "No loss/duplication across unbounded histories and callback-error paths are not decided.", "guard/refusal + affine lock-step relations"),
@@ -36,7 +36,7 @@ CLAIMS = {
          "Truth of the scores compared is C03's subject and not decided here; the enumeration claim is for at most 9 cards to choose from.", "provenance over path summaries + ordering"),
  "C11": ("other", "4/C11", "The offer table of GetAvailableActions is extracted as path conditions and compared exactly, for all orderings of its terms on a bounded grid, with the property's sentence; passive actions move no chips; Allin/Bet/Call pass the stated amounts to the chip mover whose per-branch affine summary gives the stated new wager.",
          "Reachability of each situation is not decided.", "decision-table extraction + exhaustive ordering enumeration (no solver)"),
- "C12": ("other", "4/C12", "Raise(x) decision table compared with the rule (refused / call / all-in / carried out with PreviousRaiseSize'=x-CurrentWager and pay(x-Wager)); every caller-supplied amount reaching the chip mover is bounded below by a refusing test; the wager to match is only stored under old<new. Also: a recorded minimum raise never shrinks on the grid; the opening minimum raise is the big blind (shared with C13).",
+ "C12": ("other", "4/C12", "Raise(x) decision table compared with the rule (refused / call / all-in / carried out with PreviousRaiseSize'=x-CurrentWager and pay(x-Wager)); every caller-supplied amount reaching the chip mover is bounded below by a refusing test; the wager to match is only stored under old<new. Also: a recorded minimum raise never shrinks on the grid; the opening minimum raise is the big blind (shared with C13). What an action records as the new minimum is the lift of the wager to match.",
          "Pot-limit branch outside the property; numeric bounds beyond the amount guard not decided.", "decision-table extraction + guard dominance"),
  "C13": ("other", "4/C13", "PayBlinds pairs each blind amount with the position of the same name (decision table), the table layer waits on the same seats, the blinds wait point is bypassed only when every blind is zero, the ante is paid as non-wager and swept before preflop, minimum raise initialised from the big blind. Also (shared with C01): the chip mover's all-in branch keeps the account identities, i.e. a short stack is charged what it has. The list the forced-bet loops range over holds every seat once from the dealer on (player-ring: wrapping cursor, two segments with one split point, or modulo).",
          "Cap arithmetic at the boundaries as values not decided.", "decision-table extraction + sibling agreement"),
@@ -46,7 +46,7 @@ CLAIMS = {
          "Assumes views are produced by these two functions and that only explicit flows matter.", "taint-derived secret set + all-paths redaction proof over SSA path conditions"),
  "C17": ("other", "4/C17", "The dealer search starts strictly after the current dealer (never stays put), findActivePlayer returns the first accepted element in order, Next refuses with the insufficient-players error, and blind assignment is reached only with checked search results. Also: the ring the search walks is clockwise with wrap (shared with C08); the re-activation walk stops at the seat just found; the dealer field is stored only while moving to the next hand or by an API that receives the button as an argument.",
          "Never-backwards, re-activation and waiting players being let in first are history-dependent and not decided.", "provenance + sentinel-use dominance"),
- "C18": ("other", "4/C18", "Lock typestate of every exported SeatManager method touching seat flags, guarded access only under the lock, no self-deadlock; join guards (range test, occupied test, reserved-until-sit-in, leave frees the same seat); every sentinel result (nil / -1) is checked before it reaches a dereference, slice bound or index. Also (shared with C08): the heads-up shortcut is taken exactly under the playable-count == 2 test, which is what keeps the second blind search from failing.",
+ "C18": ("other", "4/C18", "Lock typestate of every exported SeatManager method touching seat flags, guarded access only under the lock, no self-deadlock; join guards (range test, occupied test, reserved-until-sit-in, leave frees the same seat); every sentinel result (nil / -1) is checked before it reaches a dereference, slice bound or index. Also (shared with C08): the heads-up shortcut is taken exactly under the playable-count == 2 test, which is what keeps the second blind search from failing. The number of players is one pass over every seat counting a seat exactly when it holds a player.",
          "seated = joins - leaves over histories and panics via ApplyStates/SetDealer are not decided.", "lock typestate + sentinel-to-use dominance"),
  "C19": ("other", "4/C19", "Thin: table opening is gated by status and minimum-players tests on every call chain, hand-outs are bounded by the table's outstanding requirement in lock-step, top-ups pop at most the computed count. Also: after a top-up Required is the unmet remainder (count minus handed out) and counters move in lock-step (shared with C09); the slice popped for a new table is handed over whole.",
          "The capacity bound itself (water-level arithmetic over settings) is NOT decided; only the gating clauses are.", "call-chain gating + lock-step relations"),
